@@ -12,7 +12,7 @@
    says: a commit of thread t, serving request q, took effect on key k; the index record became
    (rev, flag), version rev got value v; pred is the index record it replaced. *)
 From KB Require Import Model.RevSys Model.KeySys Model.C01Cases.
-From KB Require Import Proofs.RevSys Proofs.KeySys Proofs.KeySysLog Proofs.KeySysChain Proofs.KeySysFail Proofs.KeySysJust Proofs.KeySysProps.
+From KB Require Import Proofs.RevSys Proofs.KeySys Proofs.KeySysLog Proofs.KeySysChain Proofs.KeySysFail Proofs.KeySysJust Proofs.KeySysProps Proofs.SchedCases.
 Local Open Scope N_scope.
 
 (* C01_chain. For every key:
@@ -106,9 +106,17 @@ Theorem C01_seen_monotone : forall cidx0 s l t q,
 Proof. exact seen_step_mono. Qed.
 Print Assumptions C01_seen_monotone.
 
-(* full statement of the oracle lemma for schedule cases — not proved (see "gaps") *)
+(* the oracle lemma for schedule cases. Full statement (not proved, see "gaps"): *)
 Definition C01_oracle_sound_full_statement : Prop :=
-  forall c, sched_valid c -> c01_check c = true -> c01_oracle c = None.
+  forall c, sched_valid c -> c01_check c = true -> c01_oracle c = None \/ c01_oracle c = Some 1.
+(* proved part: whenever the model reproduces the observation step by step, the observed final dump of every
+   key is the image (replay) of a chain of applied commits over the observed initial dump, each link
+   satisfying link_ok (names its predecessor, strictly increasing, kind-specific condition) *)
+Theorem C01_oracle_final_dump_chain_partial : forall c, sched_valid c -> sched_check c = true ->
+  exists lg, chain (store_of (sc_init c)) lg /\
+    forall k ks, In (k, ks) (sc_final c) -> kstate_eqb (replay (store_of (sc_init c)) lg k) ks = true.
+Proof. exact sched_final_dump_chain. Qed.
+Print Assumptions C01_oracle_final_dump_chain_partial.
 
 (* ----- non-vacuity ----- *)
 Example C01_ex_reach : reach true 10 ex_store ex_state.
